@@ -113,6 +113,13 @@ func main() {
 		if bad > 0 {
 			exit(1)
 		}
+	case "replaycheck":
+		w, err := loadWorld(*repo, *contracts)
+		if err != nil {
+			fmt.Fprintln(os.Stderr, err)
+			os.Exit(2)
+		}
+		exit(replayOracleCheck(w))
 	case "check":
 		exit(runCheck(*repo, *contracts, fs.Args(), *tier, *timeout, *verbose))
 	default:
